@@ -10,6 +10,7 @@ Everything is extracted from src/network/server.rs (brace-matched function bodie
 * `appendSites`    — every function of src/ (outside storage/aof.rs and replication/) that calls `.append_command(`
 * `wakeLogs`       — does `wake_client` append to the log (itself or through a Server method it calls)? (pops served to blocked clients)
 * `blockingPopLogged` — the same for the immediate pop of `handle_blpop` / `handle_brpop`
+* `execSelectSelects` — `handle_exec` runs a queued SELECT through `handle_select(cmd_parts, conn_id)` (it selects)
 * `selectTracked`  — the entry is written through `append_command_in_db(db, parts)`, which emits `SELECT db` on a database change
 
 `facts()` returns the same as a Python dict (used by lib/c11.py to configure the driver without importing a
@@ -167,6 +168,14 @@ def facts(src, strip_comments, fn_body, repo=None):
             if b is not None and re.search(APPEND_CALL, b):
                 sites.append("%s:%s" % (rel, m.group(1)))
     out["appendSites"] = sorted(set(sites))
+    # ---- EXEC and a queued SELECT: run through handle_select with the connection's id (selects, never appended)?
+    hexec = fn_body(server, "handle_exec")
+    if hexec is None:
+        out["errors"].append("fn handle_exec not found in network/server.rs")
+        out["execSelectSelects"] = None
+    else:
+        out["execSelectSelects"] = bool(re.search(r"self\s*\.\s*handle_select\s*\(\s*&?\s*cmd_parts\s*,\s*conn_id\s*\)", hexec))
+
     def logs(fn):
         """does `fn` append to the log — itself or through a method of Server it calls?  None: function not found"""
         body = fn_body(server, fn)
@@ -251,6 +260,13 @@ def generate(src, strip_comments, fn_body, header, repo=None):
         failed("wakeLogs", "Bool", err or "wake_client not found")
     else:
         L.append("def wakeLogs : Bool := %s" % ("true" if f["wakeLogs"] else "false"))
+    L.append("")
+    L.append("/-- EXEC runs a queued SELECT through `handle_select(cmd_parts, conn_id)`: it changes the connection's database")
+    L.append("    (and does not pass through `process_normal_command`) -/")
+    if f["execSelectSelects"] is None:
+        failed("execSelectSelects", "Bool", err or "handle_exec not found")
+    else:
+        L.append("def execSelectSelects : Bool := %s" % ("true" if f["execSelectSelects"] else "false"))
     L.append("")
     L.append("/-- do `handle_blpop`/`handle_brpop` log the pop they perform at once on a non-empty list? -/")
     if f["blockingPopLogged"] is None:
